@@ -15,6 +15,7 @@ import (
 	"fmt"
 	"os"
 	"os/exec"
+	"os/signal"
 	"path/filepath"
 	"regexp"
 	"sort"
@@ -178,6 +179,8 @@ func runChild(bin string, prop, tier string, seed uint64, fl flavour, shard int,
 		oc.stderr = err.Error()
 		return oc
 	}
+	liveChildren.Store(cmd.Process.Pid, true)
+	defer liveChildren.Delete(cmd.Process.Pid)
 	done := make(chan error, 1)
 	go func() { done <- cmd.Wait() }()
 	var err error
@@ -221,6 +224,25 @@ func runChild(bin string, prop, tier string, seed uint64, fl flavour, shard int,
 		}
 	}
 	return oc
+}
+
+// liveChildren: process groups of the children currently running. When the driver itself is
+// told to stop (a timeout wrapper, an interrupted sweep) it takes them with it, so that no worker
+// keeps running — and loading the machine — without a driver to read its result.
+var liveChildren sync.Map
+
+func killChildrenOnSignal() {
+	ch := make(chan os.Signal, 1)
+	signal.Notify(ch, syscall.SIGTERM, syscall.SIGINT, syscall.SIGHUP)
+	go func() {
+		sg := <-ch
+		liveChildren.Range(func(k, _ interface{}) bool {
+			syscall.Kill(-k.(int), syscall.SIGKILL)
+			return true
+		})
+		fmt.Fprintf(os.Stderr, "driver: stopped by %v, children killed; no verdict\n", sg)
+		os.Exit(2)
+	}()
 }
 
 func tail(path string, n int) string {
@@ -444,6 +466,7 @@ func (mg *merged) fail(prop string, known map[string]vlib.KnownFinding, key, wha
 }
 
 func main() {
+	killChildrenOnSignal()
 	if len(os.Args) < 3 {
 		fmt.Fprintln(os.Stderr, "usage: driver <PROP> quick|thorough | driver <PROP> --replay <path>")
 		os.Exit(3)
